@@ -2,9 +2,11 @@ mod r#gen;
 mod node;
 mod parsers;
 mod sample;
+mod runestone;
 mod runner;
 mod scenario;
 mod send;
+mod settings;
 
 use {
   anyhow::{Result, anyhow},
@@ -95,6 +97,10 @@ fn main() -> Result<()> {
             let tag = arg_value(&args, "--tag").unwrap_or("s".into());
             r#gen::ledger(seed * 1000 + i, &format!("{tag}x{i}"), &cfg, &flags, &chain)
           }
+          "signet" => {
+            let tag = arg_value(&args, "--tag").unwrap_or("n".into());
+            r#gen::signet_fetch(seed * 1000 + i, &format!("{tag}x{i}"), blocks, &flags)
+          }
           "runes" => {
             let tag = arg_value(&args, "--tag").unwrap_or("u".into());
             r#gen::runes(seed * 1000 + i, &format!("{tag}x{i}"), blocks, &flags)
@@ -160,6 +166,13 @@ fn main() -> Result<()> {
         let (a, b) = s.split_once("..").unwrap();
         (a.parse().unwrap(), b.parse().unwrap())
       }),
+    ),
+    "settings" => settings::run(&arg_value(&args, "--out").ok_or_else(|| anyhow!("--out"))?),
+    "runestone" => runestone::run(
+      arg_value(&args, "--seed").map(|s| s.parse().unwrap()).unwrap_or(0),
+      arg_value(&args, "--n").map(|s| s.parse().unwrap()).unwrap_or(300),
+      args.iter().any(|a| a == "--exhaustive"),
+      &arg_value(&args, "--out").ok_or_else(|| anyhow!("--out"))?,
     ),
     "crash-child" => runner::crash_child(&args[1..]),
     other => Err(anyhow!("unknown command {other}")),
